@@ -189,8 +189,9 @@ fn main() {
             r
         }
         ("replay", Some("ingest")) => {
-                        process_emitted(&m["input"], |v, r| {
-                ingest::process_line(v, r);
+            let want_prop = m.get("prop").cloned().unwrap_or_else(|| "C20".to_string());
+            process_emitted(&m["input"], |v, r| {
+                ingest::process_line(v, &want_prop, r);
             })
         }
         ("record", Some("len")) => {
